@@ -144,6 +144,18 @@ def step (s : St) (args : List String) : St × String × String :=
       both s
         (fun m => let r := load m cfg; (r.1, loadObs m.h r.2.1.toSpec r.2.2))
         (fun sp => let r := specLoad sp cfg; (r.1, loadObs sp.h r.2.1 r.2.2))
+  | "load2" :: a :: b :: _ =>
+    -- two overlapping Load calls: the second waits for the lock, so they take effect one after the other
+    match decCfg a, decCfg b with
+    | some ca, some cb =>
+      both s
+        (fun m => let r1 := load m ca; let r2 := load r1.1 cb
+          (r2.1, encSpecRes r1.2.1.toSpec ++ " " ++ encSpecRes r2.2.1.toSpec ++ " " ++
+            encCalls (r1.2.2 ++ r2.2.2) ++ " " ++ monField m.h))
+        (fun sp => let r1 := specLoad sp ca; let r2 := specLoad r1.1 cb
+          (r2.1, encSpecRes r1.2.1 ++ " " ++ encSpecRes r2.2.1 ++ " " ++
+            encCalls (r1.2.2 ++ r2.2.2) ++ " " ++ monField sp.h))
+    | _, _ => (s, "bad-op", "bad-op")
   | ["cur"] =>
     both s (fun m => (m, "cfg " ++ encCfg (current m))) (fun sp => (sp, "cfg " ++ encCfg sp.cur))
   | "validate" :: c :: _ =>
